@@ -163,5 +163,18 @@ claim(
     "under the subclass and never shadow own members. Larger hierarchies are covered only through the algorithm being the same.",
     TB + "; CPython's type() is the reference for MRO and for which hierarchies are inconsistent",
 )
+claim(
+    "C18",
+    "finite-domain abstract evaluation of the dataclasses extension's functions on every small dataclass definition (two fields x twelve "
+    "field forms x decorator kw_only x KW_ONLY position; single and three-level inheritance with overrides), compared with the __init__ "
+    "CPython's dataclasses module generates for the same text; dominance (never replace / never invent), must-pass-through (always on, "
+    "expansion before the event), effect rule (memoised list never mutated)",
+    "The synthesised constructor's parameter names, order, kinds and required-ness equal CPython's on ~1.7k (thorough ~3.4k) definitions; "
+    "a hand-written __init__ is never replaced, plain classes get none, subclasses of dataclasses are labelled; the extension is always "
+    "loaded and runs after exports/wildcards were expanded; the cached per-class field list is never mutated. Larger definitions are "
+    "covered only through the rules being the same.",
+    TB + "; CPython's dataclasses + inspect.signature on a class compiled from the definition text is the reference; the abstract class model "
+    "mirrors what the visitor stores (labels, annotation paths, field() call arguments)",
+)
 for _p in [f"C{n:02d}" for n in range(1, 20) if f"C{n:02d}" not in CLAIMED]:
     NOT_YET[_p] = "check under construction in this round (static rules designed in DESIGN.md section 3; not yet registered)"
